@@ -57,7 +57,7 @@ def _cases(tier):
     sc = _sc()
     out = []
 
-    def mk(divs=4, tss=(), kss=(), clefs=(), measures=(), note=(0, 32), staves=1, musical=None, rests=()):
+    def mk(divs=4, tss=(), kss=(), clefs=(), measures=(), note=(0, 32), staves=1, musical=None, rests=(), first_number=1):
         def f():
             p = sc.Part("P", quarter_duration=divs)
             for t, b_, bt in tss:
@@ -67,7 +67,9 @@ def _cases(tier):
             for t, staff, sign, line, oc in clefs:
                 p.add(sc.Clef(staff=staff, sign=sign, line=line, octave_change=oc), t)
             for i, (s, e) in enumerate(measures):
-                p.add(sc.Measure(number=i + 1), s, e)
+                p.add(sc.Measure(number=i + first_number), s, e)
+            # the numbers the measures were given, kept apart from the objects
+            p._verif_measure_numbers = {s: i + first_number for i, (s, e) in enumerate(measures)}
             for st in range(1, staves + 1):
                 p.add(sc.Note("C", 4, id="n%d" % st, voice=st, staff=st), note[0], note[1])
             for k_, (rs, re_) in enumerate(rests):
@@ -99,6 +101,8 @@ def _cases(tier):
     # musical beats that do not divide the numerator (5/8 counted in two, 7/8 in three), with a pickup
     out.append(("musical_beats_five_eight_in_two_with_a_pickup", mk(divs=4, tss=[(0, 5, 8)], measures=[(0, 2), (2, 12), (12, 22)], note=(0, 22), musical={"5/8": 2})))
     out.append(("musical_beats_seven_eight_in_three_with_a_pickup", mk(divs=2, tss=[(0, 7, 8)], measures=[(0, 3), (3, 10), (10, 17)], note=(0, 17), musical={"7/8": 3})))
+    # the upbeat bar counted as bar 0 (as editions and the kern reader number it)
+    out.append(("pickup_numbered_zero_3_4", mk(tss=[(0, 3, 4)], measures=[(0, 4), (4, 16), (16, 28)], note=(0, 28), first_number=0)))
     out.append(("pickup_4_4", mk(tss=[(0, 4, 4)], kss=[(0, 1, "major")], clefs=[(0, 1, "G", 2, 0)], measures=[(0, 4), (4, 20), (20, 36)], note=(0, 36))))
     # musical beats enabled: a full first bar stays a full bar, a pickup stays a pickup (the extent of a measure does not depend on the beat unit)
     out.append(("musical_beats_full_first_bar_4_4_in_two", mk(tss=[(0, 4, 4)], measures=[(0, 16), (16, 32)], note=(0, 32), musical={"4/4": 2})))
@@ -142,7 +146,8 @@ def bounded(b):
         tss = sorted((t.start.t, t.beats, t.beat_type, t.musical_beats) for t in part.iter_all(sc.TimeSignature))
         kss = sorted((k.start.t, k.fifths, -1 if k.mode in ("minor", -1) else 1) for k in part.iter_all(sc.KeySignature))
         clefs = sorted((c.start.t, c.staff, {"G": 0, "F": 1, "C": 2, "percussion": 3, "TAB": 4, "jianpu": 5, "none": 6}[c.sign], c.line, c.octave_change or 0) for c in part.iter_all(sc.Clef))
-        meas = sorted((m.start.t, m.end.t, m.number) for m in part.iter_all(sc.Measure))
+        given = getattr(part, "_verif_measure_numbers", {})
+        meas = sorted((m.start.t, m.end.t, given.get(m.start.t, m.number)) for m in part.iter_all(sc.Measure))
         case = {"part": name}
         for mapname, want_fn in (("time_signature_map", lambda t: tuple(_latest(tss, t)[1:]) if tss else (4, 4, 4)),
                                  ("key_signature_map", lambda t: tuple(_latest(kss, t)[1:]) if kss else (0, 1))):
@@ -298,3 +303,43 @@ def bounded(b):
                     if "rel_onset_div" in ra.dtype.names and (int(r["rel_onset_div"]), int(r["tot_measure_div"])) != (int(mp[0]), int(mp[1])):
                         bad = bad or "rest at %d: metrical position columns differ from the map at its onset" % t
                 b.case("maps/note_array_columns_agree_with_maps", bad is None, dict(case, array="rest"), bad or "", nontrivial=len(ra) > 0)
+    _score_columns(b)
+
+
+def _score_columns(b):
+    """the metrical-position columns of a note array taken over parts with DIFFERENT divisions: each row's pair (distance from the start of
+    the measure, length of the measure) is the answer of its part's map in ONE unit - the part's own divisions or the common divisions of
+    the array - never one number in each"""
+    sc = _sc()
+    from gen import scores as G
+    from partitura.utils.music import note_array_from_part_list
+    for divs in ((4, 6), (2, 3, 12), (8, 2)):
+        parts = []
+        for i, d in enumerate(divs):
+            bar = 3 * d
+            notes = [("p%dn%d" % (i, k), s_, l_, "CDEFGAB"[(k + i) % 7], None, 4 - i, 1, 1) for k, (s_, l_) in enumerate(((0, d), (d, d), (2 * d, d // 2 or 1), (d + bar, 2 * d), (d + bar + 2 * d, d)))]
+            parts.append(G.build_part("P%d" % i, d, ts=((0, 3, 4),), notes=notes, measures=[(0, d), (d, d + bar), (d + bar, d + 2 * bar)]))
+        lcm = int(np.lcm.reduce(list(divs)))
+        case = {"parts_with_divisions": list(divs)}
+        for how, get in (("score", lambda: G.simple_score(parts).note_array(include_metrical_position=True)), ("part_list", lambda: note_array_from_part_list(parts, include_metrical_position=True))):
+            ok, na = b.guard("maps/note_array_columns_no_exception", dict(case, taken_from=how), get)
+            if not ok:
+                continue
+            bad = None
+            byid = {}
+            for p_, d in zip(parts, divs):
+                for n in p_.iter_all(sc.Note):
+                    byid[n.id] = (p_, d, n)
+            for r in na:
+                rid = str(r["id"])
+                key_ = [k for k in byid if rid == k or rid.endswith("_" + k) or rid.endswith(k)]
+                if not key_:
+                    continue
+                p_, d, n = byid[sorted(key_, key=len)[-1]]
+                mp = np.asarray(p_.metrical_position_map(n.start.t)).ravel()
+                got = (int(r["rel_onset_div"]), int(r["tot_measure_div"]))
+                mult = lcm // d
+                if got not in ((int(mp[0]), int(mp[1])), (int(mp[0]) * mult, int(mp[1]) * mult)):
+                    bad = bad or "note %s of the part with %d divisions: columns (rel_onset_div, tot_measure_div) = %r; its part's map says %r in its own divisions = %r in the common divisions" % (
+                        n.id, d, got, (int(mp[0]), int(mp[1])), (int(mp[0]) * mult, int(mp[1]) * mult))
+            b.case("maps/note_array_columns_agree_with_maps", bad is None, dict(case, taken_from=how), bad or "")
